@@ -76,7 +76,9 @@ func zzSnapOpts(o *Options) string {
 	return s + ";algo=" + string(rune('0'+int(o.PaginationAlgo))) + ";flags=" + string(rune('0'+fl/10)) + string(rune('0'+fl%10))
 }
 
-var zzURLs = []string{"http://h.t/a?page=2", "http://h.t/story/2/", "https://h.t/dir/page.html#frag", "http://h.t", "/relative/only/", "//h.t/story/2", "page.html?p=2", "http://user:pw@h.t/a/b?page=2"}
+var zzURLs = []string{"http://h.t/a?page=2", "http://h.t/story/2/", "https://h.t/dir/page.html#frag", "http://h.t", "/relative/only/", "//h.t/story/2", "page.html?p=2", "http://user:pw@h.t/a/b?page=2",
+	// paths whose escaped form is not the canonical one (RawPath is set) (round k)
+	"http://h.t/a%2Fb/2", "http://h.t/caf%c3%a9/page/2"}
 
 func zzOpts() (*Options, *nurl.URL) { return zzOptsOf(false) }
 
@@ -92,7 +94,7 @@ func zzOptsOf(small bool) (*Options, *nurl.URL) {
 		}
 		var u *nurl.URL
 		if k := vx.Choose("url", 3); k > 0 {
-			u, _ = nurl.Parse([]string{zzURLs[0], zzURLs[len(zzURLs)-1]}[k-1])
+			u, _ = nurl.Parse([]string{zzURLs[0], zzURLs[7]}[k-1])
 			o.OriginalURL = u
 		}
 		return o, u
